@@ -8,18 +8,21 @@ from ..core import Verdict, close
 from ..refs import units_ref as R
 
 ID = "C05"
-RULE = ("The finite set of unit pairs is enumerated completely in every run with a fixed ladder of magnitudes "
-        "(all 24x24 ordered pairs of {K with every prefix, Cel, degF, degR}; {B,dB,Np,cNp,dNp} among themselves and "
-        "with PR, AR; every Bx/dBx with its linear counterpart under every admissible prefix; the dB<->dB pairs of the "
-        "table; every unit with itself), and the same pairs are sampled by Hypothesis with random magnitudes "
-        "(T in [0,1e9] K, levels in [-300,300] dB). Oracle: formulas written from the definitions (affine temperature "
-        "scales; k*log10(x/ref), k=10 power-like / 20 amplitude-like, references 1 mW, 1 W, 1 V, 1 uV, 1 A, 1 uA, "
-        "1 Ohm, 20 uPa, 1e-12 W/m2, 1e-12 W; Np=ln(AR)=ln(PR)/2). Checks: formula, u->v->u == x, u->u == x, "
-        "a(+/-)b == 10log10(10^(a/10)(+/-)10^(b/10)) dB for every bel/decibel-type unit, also with the right operand "
-        "written with the other prefix (dBm + Bm); conversions of quantities that carry an uncertainty give the same "
-        "value. Non-trivial: u != v, or "
-        "Round 4: q + q and (a + b) - a on levels. "
-        "identity on an offset/logarithmic unit, with x not in {0,1}. Distinct = distinct case JSON.")
+RULE = (
+    'The finite set of unit pairs is enumerated completely in every run with a fixed ladder of magnitudes (all '
+    '24x24 ordered pairs of {K with every prefix, Cel, degF, degR}; {B,dB,Np,cNp,dNp} among themselves and with '
+    'PR, AR; every Bx/dBx with its linear counterpart under every admissible prefix; the dB<->dB pairs of the '
+    'table; every unit with itself), and the same pairs are sampled by Hypothesis with random magnitudes (T in '
+    '[0,1e9] K, levels in [-300,300] dB). Oracle: formulas written from the definitions (affine temperature '
+    'scales; k*log10(x/ref), k=10 power-like / 20 amplitude-like, references 1 mW, 1 W, 1 V, 1 uV, 1 A, 1 uA, 1 '
+    'Ohm, 20 uPa, 1e-12 W/m2, 1e-12 W; Np=ln(AR)=ln(PR)/2). Checks: formula, u->v->u == x, u->u == x, a(+/-)b == '
+    '10log10(10^(a/10)(+/-)10^(b/10)) dB for every bel/decibel-type unit, also with the right operand written '
+    'with the other prefix (dBm + Bm); conversions of quantities that carry an uncertainty give the same value. '
+    'Non-trivial: u != v, or identity on an offset/logarithmic unit, with x not in {0,1}. Round 4: q + q and (a + '
+    'b) - a on levels. Later rounds: the same inputs as ONE array (list, float64, float32) against the scalar '
+    'answers; sums with mixed prefixes; linear units into compound logarithmic targets (/cm2, /kHz); augmented += '
+    'and -= on levels. Distinct = distinct case JSON.'
+)
 ASSUMPTIONS = [
     "dBx<->dBy pairs the documentation does not promise (e.g. dBuA->dBA) are not demanded",
     "temperatures are compared in kelvin with tolerance 1e-11*max(T,500 K); levels with 1e-9 relative + 1e-9 absolute",
